@@ -70,7 +70,7 @@ extern "C" void simos_die (int code, const char *why)
 }
 
 void SimOS::reset ()
-{	ns.clear () ; fds.clear () ; next_fd = 1000 ; fd_zero = false ;
+{	ns.clear () ; fds.clear () ; next_fd = 1000 ; fd_zero = false ; mem_fill = -1 ;
 	clock_off = 0 ; clock_reads = 0 ;
 	in_lib = false ; cur_task = cur_op = 0 ; op_io = 0 ; op_budget = 0 ; cur_api = "" ;
 	faults.clear () ; fd_chunks.clear () ; fd_chunk_k = 0 ; eintr_every = 0 ; rw_calls = 0 ; enospc_quota = -1 ;
@@ -101,6 +101,16 @@ int SimOS::open_fd (SimFileP f, int flags, bool by_lib)
 	d = SimFd () ;
 	d.f = f ; d.off = 0 ; d.flags = flags ; d.is_open = true ; d.opened_by_lib = by_lib ;
 	return fd ;
+}
+
+// leaves `fill` in the 96 KiB of stack below the caller, where the frames of the library call about to be made will lie. Called
+// from the frame that makes the library call, immediately before it (GUARD), and not instrumented: apart from a return address
+// nothing else is left between the caller's frame and the filled region.
+extern "C" __attribute__ ((noinline, no_sanitize ("address"), no_sanitize ("undefined"))) void simos_poison_stack (int fill)
+{	if (fill < 0) return ;
+	volatile unsigned char pad [96 * 1024] ;
+	for (size_t k = 0 ; k < sizeof (pad) ; k++) pad [k] = (unsigned char) fill ;
+	__asm__ __volatile__ ("" : : "r" (pad) : "memory") ;
 }
 
 void SimOS::begin_op (int task, int op, const char *api, int64_t budget)
@@ -674,7 +684,10 @@ extern "C" int __wrap_gettimeofday (struct timeval *tv, void *tz)
 
 extern "C" void *__wrap_malloc (size_t n)
 {	void *p = __real_malloc (n) ;
-	if (p && in_lib ()) { g_os->in_lib = false ; g_os->ledger [p] = n ; g_os->lib_allocs ++ ; g_os->lib_alloc_bytes += n ; g_os->in_lib = true ; }
+	if (p && in_lib ())
+	{	g_os->in_lib = false ; g_os->ledger [p] = n ; g_os->lib_allocs ++ ; g_os->lib_alloc_bytes += n ; g_os->in_lib = true ;
+		if (g_os->mem_fill >= 0) memset (p, g_os->mem_fill, n) ;
+	}
 	return p ;
 }
 extern "C" void *__wrap_calloc (size_t a, size_t b)
@@ -684,9 +697,12 @@ extern "C" void *__wrap_calloc (size_t a, size_t b)
 }
 extern "C" void *__wrap_realloc (void *o, size_t n)
 {	bool lib = in_lib () ;
+	size_t old_n = 0 ;
+	if (lib && o) { auto it = g_os->ledger.find (o) ; if (it != g_os->ledger.end ()) old_n = it->second ; else old_n = n ; }
 	void *p = __real_realloc (o, n) ;
 	if (lib)
 	{	g_os->in_lib = false ;
+		if (p && g_os->mem_fill >= 0 && n > old_n) memset ((char *) p + old_n, g_os->mem_fill, n - old_n) ;
 		if (p || n == 0) { if (o) g_os->ledger.erase (o) ; }
 		if (p) { g_os->ledger [p] = n ; g_os->lib_allocs ++ ; }
 		g_os->in_lib = true ;
